@@ -33,6 +33,8 @@ type srcTrack struct {
 	samples []mp4.FullSample
 }
 
+func (t *srcTrack) trackID() uint32 { return t.init.Moov.Trak.Tkhd.TrackID }
+
 func readTrack(dir string, n int) (*srcTrack, error) {
 	raw, err := os.ReadFile(filepath.Join(dir, "init.mp4"))
 	if err != nil {
@@ -140,7 +142,7 @@ func Generate(root, src string, l Layout) error {
 			if l.UseTime {
 				name = fmt.Sprintf("%d.m4s", start)
 			}
-			if err := writeSeg(filepath.Join(dir, id, name), uint32(l.StartNr+si), 1, ss); err != nil {
+			if err := writeSeg(filepath.Join(dir, id, name), uint32(l.StartNr+si), video.trackID(), ss); err != nil {
 				return err
 			}
 			vsegs = append(vsegs, segT{start, t - start})
@@ -174,7 +176,7 @@ func Generate(root, src string, l Layout) error {
 			if l.UseTime {
 				name = fmt.Sprintf("%d.m4s", start)
 			}
-			if err := writeSeg(filepath.Join(dir, "A48", name), uint32(l.StartNr+si), 1, ss); err != nil {
+			if err := writeSeg(filepath.Join(dir, "A48", name), uint32(l.StartNr+si), audio.trackID(), ss); err != nil {
 				return err
 			}
 			asegs = append(asegs, segT{start, t - start})
@@ -203,7 +205,7 @@ func Generate(root, src string, l Layout) error {
 			if l.UseTime {
 				name = fmt.Sprintf("%d.m4s", s.DecodeTime)
 			}
-			if err := writeSeg(filepath.Join(dir, "T1", name), uint32(l.StartNr+si), 1, []mp4.FullSample{s}); err != nil {
+			if err := writeSeg(filepath.Join(dir, "T1", name), uint32(l.StartNr+si), text.trackID(), []mp4.FullSample{s}); err != nil {
 				return err
 			}
 			tsegs = append(tsegs, segT{s.DecodeTime, uint64(s.Dur)})
